@@ -181,10 +181,15 @@ impl DomainResourceFilter {
 }
 
 fn get_key(name: &Name) -> Vec<u8> {
+    // every label is prefixed with its length, so label boundaries are kept (foo.bar is not
+    // foobar) and the key of a domain is a prefix of the keys of its subdomains only
     name.get_labels()
         .iter()
         .rev()
-        .flat_map(|label| label.to_string().into_bytes())
+        .flat_map(|label| {
+            let bytes: &[u8] = label.as_ref();
+            std::iter::once(bytes.len() as u8).chain(bytes.iter().copied())
+        })
         .collect()
 }
 
